@@ -53,7 +53,10 @@ PARTIAL = [
     "run clean. Not proved for a repaired configuration: the toggled model {f3,f31} meets the oracle on all "
     "generated programs without firewalls/projections, and with them only up to the residual recorded as "
     "F32/F30/F1/F14.",
-    "concurrent requests (two tasks entering one SCC from two sides) are outside these sequential models (C02's LTS).",
+    "concurrent requests (two tasks entering one SCC from two sides) are outside these sequential models (C02's LTS); "
+    "this includes the engine's own spawned repair tasks when a query has >= 2 transitive firewall callees or backward "
+    "projections (cases marked order-sensitive): there a hang of the implementation that no order of the model shows is "
+    "attributed to finding F33 by exclusion, not by a model prediction.",
 ]
 ASSUMPTIONS = [
     "fingerprints are injective on the values of a run (value = fingerprint in the models; C13)",
@@ -115,7 +118,7 @@ def analyse(sh):
     desc = [strip(l) for l in models["desc"]]
     cyc = models["cyc"]
     res = {"cases": 0, "lines": 0, "cyc_lines": 0, "cyc_disagree": [], "disagree": [], "order_sensitive": 0,
-           "order_matched_desc": 0, "order_unresolved": 0, "impl_fail": 0, "attributed": {}, "unexplained": [],
+           "order_matched_desc": 0, "order_matched_tape": 0, "order_unresolved": 0, "impl_fail": 0, "attributed": {}, "unexplained": [],
            "classes": {}}
     for (a, b) in ec.split_cases(ops):
         if b - a <= 1: continue
@@ -135,9 +138,16 @@ def analyse(sh):
         dis = [i for i in idx if impl[i] != asis[i]]
         same_asis = not dis
         same_desc = all(impl[i] == desc[i] for i in idx)
+        same_tape = False
         if dis:
             if osens and same_desc: res["order_matched_desc"] += 1
-            elif osens: res["order_unresolved"] += 1
+            elif osens:
+                # some other order of the two hash-set walks (order tape, engine_common.find_order)
+                k0 = [i - a for i in idx]
+                t = ec.find_order(ops[a:b], impl[a:b], k0, values_only=False)
+                if t is None: t = ec.find_order(ops[a:b], impl[a:b], k0, values_only=True)
+                if t is not None: res["order_matched_tape"] += 1; same_tape = True
+                else: res["order_unresolved"] += 1
             else: res["disagree"].append({"case": text, "op": ops[dis[0]], "impl": impl[dis[0]], "model": asis[dis[0]]})
         # 3. oracle + attribution
         bad = [i for i in idx if vals(impl[i]) != (exp[i] if i < len(exp) else None)]
@@ -146,12 +156,24 @@ def analyse(sh):
             i = bad[0]
             rec = {"case": "\n".join(ops[a:i + 1]), "line": ops[i], "impl": impl[i], "expected": exp[i] if i < len(exp) else None}
             who = None
-            for t in TOGGLE_SETS:
+            # a failure is attributable to a recorded finding only if SOME order of the as-is model
+            # reproduces what the implementation did on this case …
+            reproduced = same_asis or same_desc or same_tape
+            # … and then to the smallest set of findings whose repair makes the model meet the oracle
+            for t in (TOGGLE_SETS if reproduced else []):
                 m = [strip(l) for l in models["+".join(t)]]
                 if all(vals(m[j]) == exp[j] for j in idx if j < len(exp)): who = "attributed:" + "+".join(t); break
             if who is None and (same_asis or same_desc):
                 src = raw if same_asis else models["desc"]
                 who = "model:" + classify(src[i] if impl[i].startswith("crash") else "value")
+            if who is None and impl[i] == "crash hang" and osens and not reproduced:
+                # F33: the engine's own spawned repair tasks (>= 2 transitive firewall callees / backward
+                # projections: the model marks these cases order-sensitive) interleave at every `.guarded()`
+                # block; a task that asks for a query another task is still publishing (marked, with itself
+                # or an ancestor among its registered callees) recurses forever in check_cyclic_internal.
+                # The sequential model cannot express the interleaving: attribution BY EXCLUSION (a hang
+                # of the implementation, in a case with spawned tasks, that no order of the model shows).
+                who = "concurrent:hang-in-spawned-task"
             if who is None: res["unexplained"].append(rec)
             else: res["attributed"].setdefault(who, []).append(rec)
             cl = classify(raw[i]) if impl[i].startswith("crash") else "value"
@@ -215,7 +237,8 @@ def collect(ctx, n_quick=450, n_thorough=4000):
     dist["lines_compared_with_cycle_model_(fresh_evaluation)"] = sum(a["cyc_lines"] for a in an)
     dist["cases_with_order_choice_points"] = sum(a["order_sensitive"] for a in an)
     dist["order_sensitive_cases_matching_descending_model"] = sum(a["order_matched_desc"] for a in an)
-    dist["order_sensitive_cases_matching_neither_order_(oracle_only)"] = sum(a["order_unresolved"] for a in an)
+    dist["order_sensitive_cases_matching_an_order_found_by_the_tape_search"] = sum(a["order_matched_tape"] for a in an)
+    dist["order_sensitive_cases_matching_no_order_(oracle_only)"] = sum(a["order_unresolved"] for a in an)
     dist["cases_compared_strictly_with_as_is_model"] = sum(a["cases"] - a["order_sensitive"] for a in an)
     dist["cases_where_impl_violates_oracle"] = sum(a["impl_fail"] for a in an)
     cl = {}
@@ -261,7 +284,7 @@ def fill(res, an):
             for r in recs[:1]:
                 res.oracle_failures.append({"sig": "C06:" + who, "desc": f"{r['line']} -> {r['impl']} expected {r['expected']}", "case": r["case"]})
         for r in a["unexplained"]:
-            res.oracle_failures.append({"sig": "C06:unexplained", "desc": f"{r['line']} -> {r['impl']} expected {r['expected']} (neither predicted by the as-is model nor repaired by a known finding's toggles)", "case": r["case"]})
+            res.oracle_failures.append({"sig": "C06:unexplained", "desc": f"{r['line']} -> {r['impl']} expected {r['expected']} (not reproduced by any order of the as-is model, or not repaired by a known finding's toggles)", "case": r["case"]})
         for d in a["disagree"]:
             res.disagreements.append({"which": "full as-is (Model/Engine.lean)", **d})
         for d in a["cyc_disagree"]:
